@@ -28,6 +28,7 @@ PARTS += ["trmatch"]      # transcription.match_note_onsets / _offsets / match_n
 PARTS += ["melody"]       # mir_eval/melody.py frame metrics, validation, freq_to_voicing, time base -> MirGen/Melody.lean (C04)
 PARTS += ["validators"]   # mir_eval input validators -> MirGen/Validators.lean (C14)
 PARTS += ["sepcrit"]      # mir_eval/separation.py criteria, decomposition arithmetic -> MirGen/SepCrit.lean (C19)
+PARTS += ["pattern"]      # mir_eval/pattern.py metrics -> MirGen/Pattern.lean (C04, C01; after validators: binds to Mir.GenV.pattern.*)
 
 
 def write_if_changed(path, text):
